@@ -82,14 +82,13 @@ class C16(Case):
         sp = self.spec
         np_, nc = sp.get("parents", 2), sp.get("cands", 3)
         cands = [Elem(w=mk.int("e%d.w" % j), name="e%d" % j) for j in range(nc)]
+        seq = cands + [cands[0]] if sp.get("repeat") else cands   # repeat: one object named twice in a collection
         parents = []
         for i in range(np_):
             if sp.get("scalar") and i == np_ - 1:
                 items = cands[i % nc]   # a bare element: counts as a single-element collection
-            elif sp.get("container") == "tuple":
-                items = mk.slist("p%d.items" % i, cands)
             else:
-                items = mk.slist("p%d.items" % i, cands)
+                items = mk.slist("p%d.items" % i, seq)
             parents.append(Par(k=mk.int("p%d.k" % i), items=items, name="p%d" % i))
         data = dict(parents=parents, cands=cands, rows=None)
         try:
@@ -124,7 +123,8 @@ class C16(Case):
     def _present(self, alg, parent, j, cands):
         it = parent.items
         if isinstance(it, SList):
-            return it.present[j]
+            terms = [p for c, p in zip(it.candidates, it.present) if c is cands[j]]
+            return alg.or_(*terms)
         if isinstance(it, list):
             return alg.const(any(o is cands[j] for o in it))
         return alg.const(it is cands[j])
@@ -171,8 +171,36 @@ class C16(Case):
             obs.append(("element_%d_of_parent_%d_has_a_row" % (j, i), alg.implies(sat[(i, j)], alg.or_(*[matches(r, i, j) for r in rows]))))
         if "p" in sp["select"] and "e" in sp["select"]:
             keys = [tuple(c for s, c in zip(sp["select"], r) if s in ("p", "e")) for r in rows]
-            obs.append(("no_pair_twice", alg.const(len(keys) == len(set(keys)))))
+            if not sp.get("repeat"):
+                obs.append(("no_pair_twice", alg.const(len(keys) == len(set(keys)))))
+            else:
+                # one row per OCCURRENCE of an element in its parent's collection
+                pi, ei = sp["select"].index("p"), sp["select"].index("e")
+                for (i, j) in pairs:
+                    it = parents[i].items
+                    n = sum(1 for r in rows if r[pi] == i and r[ei] == j)
+                    if isinstance(it, SList):
+                        occ = [p for c, p in zip(it.candidates, it.present) if c is cands[j]]
+                        if len(occ) < 2:
+                            continue
+                        ok = alg.int_eq(alg.count(occ), n)
+                        if sp.get("cond"):
+                            ok = z3_ite(holds(alg, sp["cond"], parents[i], cands[j]), ok, n == 0)
+                    elif isinstance(it, list):
+                        k_occ = sum(1 for c in it if c is cands[j])
+                        if sum(1 for c in (cands + [cands[0]]) if c is cands[j]) < 2:
+                            continue
+                        sat_c = holds(alg, sp["cond"], parents[i], cands[j]) if sp.get("cond") else True
+                        ok = alg.const(n == (k_occ if sat_c else 0))
+                    else:
+                        continue
+                    obs.append(("one_row_per_occurrence_p%d_e%d:%d" % (i, j, n), ok))
         return obs
+
+
+def z3_ite(c, a, b):
+    import z3
+    return z3.If(c, a, z3.BoolVal(bool(b)))
 
 
 def make_case(spec):
@@ -194,6 +222,9 @@ def shapes(tier, seed):
         for sel, form in sels[:4]:
             out.append(dict(parents=3, cands=3, cond=c, select=sel, form=form))
             out.append(dict(parents=2, cands=3, cond=c, select=sel, form=form, scalar=True))
+    for c in (None, ["e>", 1]):
+        for sel, form in [(["p", "e"], "set_of"), (["e", "p"], "set_of"), (["e"], "entity")]:
+            out.append(dict(parents=2, cands=2, cond=c, select=sel, form=form, repeat=True))
     return out
 
 
